@@ -550,6 +550,31 @@ func c10Judge(r *fw.Rec, tag string, lits []fpLit) {
 	}
 	kind := lits[0].kind
 	typ := kindType(kind)
+	// the hexadecimal digits of a literal may be written in either case (the kind
+	// letter after 0x may not): every third literal is spelled in lower case and
+	// every third with the cases alternating; LLVM's reading of that very spelling
+	// is the reference as for any other
+	lits = append([]fpLit(nil), lits...)
+	for i := range lits {
+		sp := lits[i].spell
+		if !strings.HasPrefix(sp, "0x") || i%3 == 0 {
+			continue
+		}
+		at := 2
+		if at < len(sp) && strings.ContainsRune("KLMHR", rune(sp[at])) {
+			at++
+		}
+		b := []byte(sp)
+		for j := at; j < len(b); j++ {
+			if b[j] >= 'A' && b[j] <= 'F' && (i%3 == 1 || j%2 == 0) {
+				b[j] += 'a' - 'A'
+			}
+		}
+		if string(b) != sp {
+			lits[i].spell = string(b)
+			r.Tally("literals", "hex-digits-in-lower-or-mixed-case:"+kind)
+		}
+	}
 	in := make([]string, len(lits))
 	for i, l := range lits {
 		in[i] = l.spell
